@@ -464,6 +464,17 @@ def check_C16(ctx, rep):
 
 # =================================================================== C17
 
+def private_callees(ctx, fn):
+    """workspace functions called directly by fn that are not public API (refactor tolerance: extracted helpers)"""
+    out = []
+    fa = ctx.an.get(fn)
+    for (b, f, a, t) in calls(fa):
+        g = ctx.prog.fns.get(callee_key(f)) if f.get('resolved') else None
+        if g is not None and g.has_body and g.crate == fn.crate and g.vis != 'Public' and g is not fn and g not in out and not g.impl_trait:
+            out.append(g)
+    return out
+
+
 def clearing_sites(fa):
     """places where an Option slot reached through a loop iterator is emptied:
     [(kind, place expr, (bb, idx|None))]"""
@@ -752,15 +763,26 @@ def check_C18(ctx, rep):
     da = an.get(di)
     rep.analysed(di)
     n_clear = 0
-    for (kind, pe, site) in clearing_sites(da):
-        n_clear += 1
-        nxs = [x[3] for x in walk(pe) if isinstance(x, tuple) and x and x[0] == 'call' and len(x) > 3 and x[3] is not None and (x[1].endswith('Iterator>::next') or x[1].endswith('Iterator::next'))]
-        ok = bool(nxs) and not any(da.cfg.can_reach(y, nb[0]) for nb in nxs for (y, l) in da.cfg.succ[site[0]])
-        rep.ob('C18.R2', di, 'search-stops-at-first-match', ok, 'after clearing the slot (%s) the iterator is not advanced again' % kind)
-        pfi = an.paths(di, entry=nxs[0][0]) if nxs and nxs[0][0] in da.cfg.loops() else an.paths(di)
-        st = pfi.at(site[0], site[1]) if site[1] is not None else pfi.at_entry(site[0])
-        okm, w = all_paths(st, lambda S: due_fact(ctx, S, lambda l: True, lambda r: r == ('param', 3)))
-        rep.ob('C18.R2', di, 'cleared-slot-is-the-due-one', okm and bool(st), '')
+    helpers = [g for g in private_callees(ctx, di) if clearing_sites(an.get(g))]
+    for sf in [di] + helpers:
+        sfa = an.get(sf)
+        inst = [i + 1 for i, t_ in enumerate(sf.inputs) if t_.endswith('time::Instant')]
+        mult = 1 if sf is di else sum(1 for (b, f, a, t) in calls(da) if callee_key(f) == sf.key)
+        for (kind, pe, site) in clearing_sites(sfa):
+            n_clear += mult
+            nxs = [x[3] for x in walk(pe) if isinstance(x, tuple) and x and x[0] == 'call' and len(x) > 3 and x[3] is not None and (x[1].endswith('Iterator>::next') or x[1].endswith('Iterator::next'))]
+            ok = bool(nxs) and not any(sfa.cfg.can_reach(y, nb[0]) for nb in nxs for (y, l) in sfa.cfg.succ[site[0]])
+            rep.ob('C18.R2', sf, 'search-stops-at-first-match', ok, 'after clearing the slot (%s) the iterator is not advanced again' % kind)
+            pfi = an.paths(sf)
+            st = pfi.at(site[0], site[1]) if site[1] is not None else pfi.at_entry(site[0])
+            okm, w = all_paths(st, lambda S: due_fact(ctx, S, lambda l: True, lambda r: r[0] == 'param' and r[1] in inst))
+            rep.ob('C18.R2', sf, 'cleared-slot-is-the-due-one', okm and bool(st), '')
+    for g in helpers:
+        # the helper is applied to the timer slots with the target instant
+        for (b, f, a, t) in calls(da):
+            if callee_key(f) == g.key:
+                okh = any(contains(x, lambda y: isinstance(y, tuple) and y and y[0] == 'fld' and y[3] == 'scheduled_internal_timer') for x in a) and any(x == ('param', 3) for x in a)
+                rep.ob('C18.R2', di, 'helper-searches-timer-slots-for-target', okh, '%s(%s)' % (g.name, ', '.join(show(x)[:40] for x in a)))
     rep.count_exact('C18.R2', 'slot clearing sites in do_internal_timer', n_clear, 2)
     for (site, evn, evf, flds, ln) in sim_events(da):
         if evn == 'TimerEnd':
@@ -772,9 +794,27 @@ def check_C18(ctx, rep):
                 l = src[1][1] if src[0] == 'load' and src[1][0] == 'local' else None
                 if l is not None:
                     dv = [da.def_value(l, bb, kk) for (bb, kk, part) in da.defs().get(l, [])]
-                    okm = all((d[0] == 'agg' and d[2] == 'None') or (d[0] == 'agg' and d[2] == 'Some' and is_call(dict(d[3])['0'], 'MachineId::from_raw') and
-                                                                   contains(dict(d[3])['0'], lambda y: is_call(y, 'Iterator>::next') or is_call(y, 'Iterator::next'))) for d in dv) and \
-                        any(d[0] == 'agg' and d[2] == 'Some' for d in dv)
+
+                    def names_slot(d):
+                        if d[0] == 'agg' and d[2] == 'None':
+                            return 'none'
+                        if d[0] == 'agg' and d[2] == 'Some' and is_call(dict(d[3])['0'], 'MachineId::from_raw') and contains(dict(d[3])['0'], lambda y: is_call(y, 'Iterator>::next') or is_call(y, 'Iterator::next')):
+                            return 'some'
+                        if d[0] == 'call' and len(d) > 5 and d[5] in prog.fns and prog.fns[d[5]] in helpers:
+                            ha = an.get(prog.fns[d[5]])
+                            rs = [names_slot(v) for (b, k, v) in ret_defs(ha)]
+                            rs2 = []
+                            for (b, k, v) in ret_defs(ha):
+                                if v[0] == 'load' and v[1][0] == 'local':
+                                    rs2 += [names_slot(ha.def_value(v[1][1], bb, kk)) for (bb, kk, part) in ha.defs().get(v[1][1], [])]
+                                elif v[0] == 'phi':
+                                    rs2 += [names_slot(x) for x in v[1]]
+                                else:
+                                    rs2.append(names_slot(v))
+                            return 'some' if rs2 and all(r in ('some', 'none') for r in rs2) and 'some' in rs2 else 'bad'
+                        return 'bad'
+                    kinds = [names_slot(d) for d in dv]
+                    okm = bool(kinds) and all(k in ('some', 'none') for k in kinds) and 'some' in kinds
             rep.ob('C18.R2', di, 'TimerEnd-names-slot-index', okm, 'machine = %s' % shape(m))
             rep.ob('C18.R2', di, 'TimerEnd-at-target', flds.get('time') == ('param', 3), 'time = %s' % show(flds.get('time')))
         elif evn is not None:
